@@ -28,7 +28,7 @@ use crate::{
 
 #[derive(Clone, Debug, Serialize, Deserialize, PartialEq, Eq)]
 pub enum Change {
-	/// bit i of `mask` = path i configured; bit i of `rec` = recursive
+	/// bit i of `mask` = path i configured (bit 4+i: listed twice); bit i of `rec` = recursive
 	Paths { mask: u8, rec: u8 },
 	/// 0 native, 1 poll(50 ms), 2 poll(200 ms)
 	Kind(u8),
@@ -97,6 +97,10 @@ fn apply_change(config: &Config, model: &Mutex<Model>, c: &Change) {
 				if mask >> i & 1 == 1 {
 					let r = rec >> i & 1 == 1;
 					v.push(if r { WatchedPath::recursive(path(i)) } else { WatchedPath::non_recursive(path(i)) });
+					// bit 4+i of `mask`: the entry is listed twice (the configured *set* is the same)
+					if mask >> (4 + i) & 1 == 1 {
+						v.push(if r { WatchedPath::recursive(path(i)) } else { WatchedPath::non_recursive(path(i)) });
+					}
 					m.insert(path(i), r);
 				}
 			}
@@ -302,7 +306,11 @@ pub fn run(c: &C13Case) -> Outcome {
 }
 
 fn change() -> impl Strategy<Value = Change> {
-	prop_oneof![4 => (0u8..16, 0u8..16).prop_map(|(mask, rec)| Change::Paths { mask, rec }), 1 => (0u8..3).prop_map(Change::Kind)]
+	prop_oneof![
+		4 => (0u8..16, 0u8..16).prop_map(|(mask, rec)| Change::Paths { mask, rec }),
+		1 => (0u8..16, 0u8..16, 0u8..16).prop_map(|(mask, rec, dup)| Change::Paths { mask: mask | (dup << 4), rec }),
+		1 => (0u8..3).prop_map(Change::Kind)
+	]
 }
 
 fn op() -> impl Strategy<Value = Op> {
@@ -328,6 +336,8 @@ fn exhaustive(max_len: usize) -> Vec<C13Case> {
 		Op::Change(Change::Paths { mask: 3, rec: 1 }),
 		Op::Change(Change::Paths { mask: 3, rec: 2 }),
 		Op::Change(Change::Paths { mask: 2, rec: 0 }),
+		// path 0 listed twice: the same length as {0, 1} but a different set
+		Op::Change(Change::Paths { mask: 1 | (1 << 4), rec: 1 }),
 		Op::Change(Change::Kind(0)),
 		Op::Change(Change::Kind(1)),
 		Op::FailNext { path: 0, watch: true },
@@ -367,7 +377,7 @@ pub fn check(e: &Engine) {
 	e.assume("a path whose latest registration attempt was failed by injection is expected to be missing (resp. still registered for a failed unwatch) until a later change retries it; after such a retry round the registered set must be exact");
 	e.enumerate(
 		"exhaustive",
-		"all sequences over a 12-op reduced alphabet (2-path universe: set/clear/mode flip, kind change, watch/unwatch failure, during-apply path and kind change, irrelevant change) up to the bound x {settled, burst}",
+		"all sequences over a 13-op reduced alphabet (2-path universe: set/clear/mode flip, a path listed twice, kind change, watch/unwatch failure, during-apply path and kind change, irrelevant change) up to the bound x {settled, burst}",
 		true,
 		exhaustive(e.tier.pick(3, 4)),
 		&run,
